@@ -215,7 +215,7 @@ def gen_reads(rng, U, nreads):
     nv = len(U)
     reads = []
     for _ in range(nreads):
-        kind = rng.choice(["contig", "gapped", "nested", "interleaved", "unsorted", "pair"])
+        kind = rng.choice(["contig", "gapped", "nested", "interleaved", "unsorted", "pair", "far"])
         a = rng.randrange(nv)
         if kind == "contig":
             idx = list(range(a, min(nv, a + rng.randint(1, 4))))
@@ -229,6 +229,8 @@ def gen_reads(rng, U, nreads):
             idx = list(range(a, nv, 2))[:rng.randint(1, 4)]
         elif kind == "pair":
             idx = sorted({a, min(nv - 1, a + rng.randint(1, 5))})
+        elif kind == "far":
+            idx = sorted({a, rng.randrange(nv)})            # long-range link (spans up to the whole position set)
         else:
             idx = rng.sample(range(nv), rng.randint(1, min(4, nv)))
         reads.append((rng.choice([0, 0, 1, 2]), [U[i] for i in idx]))
@@ -237,7 +239,8 @@ def gen_reads(rng, U, nreads):
 
 def gen_fc_random(rng, count):
     for _ in range(count):
-        nv = rng.randint(2, 14) if rng.random() < 0.9 else rng.randint(15, 40)
+        r0 = rng.random()
+        nv = rng.randint(2, 14) if r0 < 0.88 else rng.randint(15, 40) if r0 < 0.98 else rng.choice([70, 130, 260])
         U = sorted(rng.sample(range(0, rng.choice([3000, 3000, 250000000])), nv))
         r = rng.random()
         P = [] if r < 0.03 else [rng.choice(U)] if r < 0.08 else (sorted(p for p in U if rng.random() < 0.8) or [U[0]])
@@ -300,6 +303,9 @@ def check_fc(ctx, cases, label):
         terms.append(fc_term(case, res))
         ctx.tally("fc.err" if res[0] == "err" else "fc.ok")
         ctx.tally("fc.P_size=" + ("0" if not case["P"] else "1" if len(case["P"]) == 1 else "2" if len(case["P"]) == 2 else "many"))
+        for thr in (64, 128, 256):
+            if len(case["P"]) > thr:
+                ctx.tally(f"fc.positions>{thr}")
         ctx.tally("fc.reads=" + ("0" if not case["reads"] else "1" if len(case["reads"]) == 1 else "many"))
         if case.get("repeat"):
             ctx.tally("fc.second_call_on_same_readset")
@@ -606,6 +612,9 @@ def run(ctx):
     for i in range(ctx.n(60, 240)):
         specs.append(phase_cli.make_spec(rng, trio=(i % 2 == 0), tag=("PS" if i % 4 < 2 else "HP"), low_cov_gaps=(i % 5 != 0),
                                          k=rng.choice([4, 6, 8, 15]), depth_reads=rng.randint(15, 60)))
+    for nv in ctx.n([70, 70, 140], [70, 70, 140, 140, 140]):
+        specs.append(phase_cli.make_large_spec(rng, nv, trio=(nv == 140), tag=rng.choice(["PS", "HP"]), low_cov_gaps=True,
+                                               k=rng.choice([2, 4]), depth_reads=nv * 4))
     check_cli(ctx, specs, "cli")
     check_cli(ctx, gen_junction_specs(ctx), "jn")
 
